@@ -68,7 +68,10 @@ func applyServiceExtends(ctx context.Context, name string, services map[string]a
 	)
 	switch v := extends.(type) {
 	case map[string]any:
-		ref = v["service"].(string)
+		ref, ok = v["service"].(string)
+		if !ok {
+			return nil, fmt.Errorf("services.%s.extends.service must be a string", name)
+		}
 		file = v["file"]
 		opts.ProcessEvent("extends", v)
 	case string:
@@ -82,7 +85,10 @@ func applyServiceExtends(ctx context.Context, name string, services map[string]a
 	)
 
 	if file != nil {
-		refFilename := file.(string)
+		refFilename, ok := file.(string)
+		if !ok {
+			return nil, fmt.Errorf("services.%s.extends.file must be a string", name)
+		}
 		services, processor, err = getExtendsBaseFromFile(ctx, name, ref, filename, refFilename, opts, tracker)
 		post = append(post, processor)
 		if err != nil {
